@@ -373,8 +373,51 @@ func lenTok(r *rand.Rand, n int) string {
 func genC09(w *bufio.Writer, seed int64, n int, tier string) {
 	r := rand.New(rand.NewSource(seed*7919 + 9))
 	for ci := 0; ci < n; ci++ {
+		if ci%8 == 5 {
+			genC09Straddle(w, r, fmt.Sprintf("case c09-%d-%d", seed, ci))
+			continue
+		}
 		genC09Case(w, r, fmt.Sprintf("case c09-%d-%d", seed, ci))
 	}
+}
+
+// a record whose 7-byte header lies across a multiple of 64 KiB of the file (the size of the
+// buffers the log is written and read through): small records up to 65536*m - d, d in 0..7, the
+// record there, a few more, then everything is read back (from / reopen = replay)
+func genC09Straddle(w *bufio.Writer, r *rand.Rand, caseLine string) {
+	fmt.Fprintf(w, "%s\n", caseLine)
+	const buf = 65536
+	target := buf*(1+r.Intn(2)) - []int{1, 2, 3, 4, 5, 6, 0, 7}[r.Intn(8)]
+	used, i := 0, 0
+	for used+1400 < target {
+		l := 600 + r.Intn(600)
+		key := fmt.Sprintf("s%03d", i)
+		if r.Intn(6) == 0 {
+			fmt.Fprintf(w, "del %s\n", mkTok([]byte(key)))
+			used += 7 + 13 + len(key)
+		} else {
+			fmt.Fprintf(w, "put %s @%d:%d\n", mkTok([]byte(key)), l, r.Intn(1<<20))
+			used += 7 + 13 + len(key) + 4 + l
+		}
+		i++
+	}
+	key := fmt.Sprintf("s%03d", i)
+	fmt.Fprintf(w, "put %s %s\n", mkTok([]byte(key)), lenTok(r, target-used-(7+13+len(key)+4)))
+	// the record whose header straddles the boundary, and what follows it
+	switch r.Intn(3) {
+	case 0:
+		fmt.Fprintf(w, "put %s %s\n", mkTok([]byte("edge")), mkTok([]byte("e")))
+	case 1:
+		fmt.Fprintf(w, "del %s\n", mkTok([]byte("edge")))
+	default:
+		fmt.Fprintf(w, "batch 2\np %s %s\nd %s\n", mkTok([]byte("edge")), mkTok([]byte("e")), mkTok([]byte("s000")))
+	}
+	for j := 0; j < 2+r.Intn(3); j++ {
+		fmt.Fprintf(w, "put %s %s\n", mkTok([]byte(fmt.Sprintf("t%d", j))), mkTok([]byte("x")))
+	}
+	fmt.Fprintf(w, "from %d\n", r.Intn(3))
+	fmt.Fprintf(w, "from %d\n", i)
+	fmt.Fprintf(w, "reopen\nfrom 1\nend\n")
 }
 
 // one program over the log's own API (also used by C08 for its log-level cases)
